@@ -176,7 +176,7 @@ fn check_chain(ctx: &Ctx, rt: &tokio::runtime::Runtime, fac: &versatiles_pipelin
 pub fn run(ctx: Arc<Ctx>) {
 	ctx.rule(
 		"filter_zoom: all 81 (min,max) over {absent,0,1,2,3,5,31,32,255}; filter_bbox: every valid box from the lon/lat alphabet of C15 (incl. points, slivers, antimeridian/pole touching) ; chains of 2 (all zoom x representative bbox, bbox x bbox; thorough: every 17th x every 17th box of the alphabet) and 3 filters; \
-		 sources: MemSource (full z0..4 + sparse z5 + both corners of z31), from_debug (generator, all coordinates), real versatiles / pmtiles / tar / mbtiles files written by the repository (a quarter of the chains each for versatiles and pmtiles, an eighth for tar and mbtiles); every coordinate z<=4 + sparse + corners probed by lookup, streams over whole levels. invalid arguments (reversed, out of range, 3/5 elements, nan, text, negative zoom) must be Err at build time. \
+		 sources: MemSource (full z0..4 + sparse z5 + both corners of z31), from_debug (generator, all coordinates), overlays whose members cover different zoom levels / halves of the world (half of the chains), real versatiles / pmtiles / tar / mbtiles files written by the repository (a quarter of the chains each for versatiles and pmtiles, an eighth for tar and mbtiles); every coordinate z<=4 + sparse + corners probed by lookup, streams over whole levels. invalid arguments (reversed, out of range, 3/5 elements, nan, text, negative zoom, a scalar given twice with conflicting values) must be Err at build time. \
 		 oracle with a don't-care band of 1e-6 tile on geographic edges. non-trivial = chains that pass some but not all probe tiles",
 	);
 	let work = ct::WorkDir::new("c09");
@@ -188,6 +188,18 @@ pub fn run(ctx: Arc<Ctx>) {
 		let mut src = MemSource::new("m", low.clone(), TileFormat::BIN, TileCompression::Uncompressed);
 		if let Ok(ct::Written::Bytes(b)) = ct::write(&rt, Cont::Versatiles, &mut src, &work.0, "low") {
 			std::fs::write(work.0.join("low.versatiles"), b).unwrap();
+		}
+		// the same tiles as files of the formats whose readers advertise the exact bounding boxes of the stored tiles
+		if let Ok(ct::Written::Bytes(b)) = ct::write(&rt, Cont::Pmtiles, &mut src, &work.0, "low") {
+			std::fs::write(work.0.join("low.pmtiles"), b).unwrap();
+		}
+		if ct::write(&rt, Cont::Tar, &mut src, &work.0, "low").is_err() {
+			let _ = std::fs::remove_file(work.0.join("low.tar"));
+		}
+		// (MBTiles takes image / vector formats only: the same bytes labelled png)
+		let mut png = MemSource::new("m", low.clone(), TileFormat::PNG, TileCompression::Uncompressed);
+		if ct::write(&rt, Cont::Mbtiles, &mut png, &work.0, "low").is_err() {
+			let _ = std::fs::remove_file(work.0.join("low.mbtiles"));
 		}
 	}
 	let zvals: Vec<Option<u32>> = vec![None, Some(0), Some(1), Some(2), Some(3), Some(5), Some(31), Some(32), Some(255)];
@@ -268,9 +280,25 @@ pub fn run(ctx: Arc<Ctx>) {
 		if ci % 4 == 0 {
 			check_chain(ctxr, &rt, &fac, "from_debug format=pbf", None, chain, gpr, "filter over from_debug");
 		}
+		if ci % 2 == 1 {
+			// the same tiles behind an overlay whose members cover different zoom levels / halves of the world: the
+			// filter sees a source whose coverage is a union
+			let ov = if ci % 4 == 1 { "from_overlayed [ from_container filename=\"mem:0\" | filter_zoom max=2, from_container filename=\"mem:0\" | filter_zoom min=3 ]" } else { "from_overlayed [ from_container filename=\"mem:0\" | filter_bbox bbox=[-180,-85.05112877980659,0,85.05112877980659] | filter_zoom min=1, from_container filename=\"mem:0\" ]" };
+			check_chain(ctxr, &rt, &fac, ov, Some(tr), chain, pr, "filter over an overlay");
+		}
 		if ci % 4 == 1 {
 			let lp: Vec<Key> = pr.iter().copied().filter(|k| k.0 <= 6).collect();
 			check_chain(ctxr, &rt, &fac, "from_container filename=\"low.versatiles\"", Some(lowr), chain, &lp, "filter over a versatiles file");
+		}
+		if ci % 4 == 2 || ci % 4 == 3 {
+			let lp: Vec<Key> = pr.iter().copied().filter(|k| k.0 <= 6).collect();
+			let (file, class) = if ci % 4 == 2 { ("low.pmtiles", "filter over a pmtiles file") } else if ci % 8 == 3 { ("low.tar", "filter over a tar file") } else { ("low.mbtiles", "filter over an mbtiles file") };
+			if wpath.join(file).exists() {
+				if file.ends_with("mbtiles") {
+					ct::mbtiles_pool_token();
+				}
+				check_chain(ctxr, &rt, &fac, &format!("from_container filename=\"{file}\""), Some(lowr), chain, &lp, class);
+			}
 		}
 		let passing = pr.iter().filter(|k| chain.iter().all(|f| f.passes(**k) == Some(true))).count();
 		if passing > 0 && passing < pr.len() {
@@ -300,6 +328,11 @@ pub fn run(ctx: Arc<Ctx>) {
 		"filter_zoom min=256",
 		"filter_zoom max=99999999999",
 		"filter_zoom min=[1,2]",
+		// two conflicting values for one scalar parameter: whichever way a parser represents the repetition, there is
+		// no single value to filter by
+		"filter_zoom min=2 max=4 max=9",
+		"filter_zoom min=1 min=2",
+		"filter_bbox bbox=[0,0,20,20] bbox=[-180,-85,180,85]",
 	];
 	for inv in invalid {
 		let vpl = format!("from_container filename=\"mem:0\" | {inv}");
